@@ -248,6 +248,17 @@ func FamilyCrash(tier string) []*Scenario {
 	add("bpost-fails-def", PlanSpec{Def: Chk(A()), Blocks: []BlockSpec{{Post: Chk(A(Perm)), Def: Chk(A()), Seqs: okSeqs(1, 1)}}})
 	add("bdef-fails", PlanSpec{Def: Chk(A()), Blocks: []BlockSpec{{Def: Chk(A(), A(Perm)), Seqs: okSeqs(1, 1)}, {Seqs: okSeqs(1, 1)}}})
 	add("pcont-fails-def", PlanSpec{Pre: Chk(A()), Cont: Chk(A(Perm)), Def: Chk(A()), Blocks: []BlockSpec{{Def: Chk(A()), Seqs: okSeqs(1, 1)}}})
+	// a later run of a continuous check in flight at the crash: the group is still recorded as Completed from its previous
+	// run while its action is Running again without an attempt (slow plugins: time passes while the action executes)
+	for _, lv := range []string{"block", "plan"} {
+		ps := PlanSpec{Blocks: []BlockSpec{{Seqs: []SeqSpec{Seq(A(), A())}, Conc: 1}}}
+		if lv == "block" {
+			ps.Blocks[0].Cont = ChkD(2, A())
+		} else {
+			ps.Cont = ChkD(2, A())
+		}
+		out = append(out, &Scenario{Family: "F-crash", Name: "crash-cont-rerun-" + lv, Plans: []PlanSpec{ps}, Crash: true, Time: true, SlowPlugins: true, MaxTicks: 3})
+	}
 	// retries: the attempt log is what recovery interprets
 	add("retry-t-ok", PlanSpec{Blocks: []BlockSpec{{Seqs: []SeqSpec{Seq(AR(1, Trans, OK), A())}}}})
 	add("retry-ok-r1", PlanSpec{Blocks: []BlockSpec{{Conc: 2, Seqs: []SeqSpec{Seq(AR(1, OK), A()), Seq(AR(3, Trans, OK))}}}})
